@@ -124,8 +124,8 @@ func (s *State) havocAllHeap(why string) {
 	}
 	sort.Strings(names)
 	for _, k := range names {
-		if k == "Alloc" {
-			continue
+		if k == "Alloc" || k == "Held" {
+			continue // lock state is balanced by every callee (checked on the callee's side)
 		}
 		if strings.HasPrefix(k, "Ghost_") && !strings.HasPrefix(k, "Ghost_heap_") {
 			continue
